@@ -42,6 +42,10 @@ def distance_to_similarity(D, r=None, a=None, method='exponential', return_param
             cover_quantile_target = 1 - cover_quantile
     else:
         cover_quantile_target = None
+    D = np.asarray(D)
+    if D.dtype.kind in 'ui':
+        # Integer distances: negation and squaring wrap around in unsigned and narrow integer types
+        D = D.astype(np.double)
     method = method.lower()
     if method == 'exponential':
         if r is None:
@@ -117,6 +121,10 @@ def squash(X, r=None, base=None, x0=None, method="logistic", return_params=False
     else:
         cover_quantile_target = None
     result = None
+    X = np.asarray(X)
+    if X.dtype.kind in 'ui':
+        # Integer values: negation and squaring wrap around in unsigned and narrow integer types
+        X = X.astype(np.double)
     if keep_sign:
         Xs = np.sign(X)
         Xz = 0
